@@ -215,6 +215,10 @@ Fixpoint pack_list (fs : list fdesc) (m : msg) (p q : Z) : pres :=
 (* SFault: pack read outside its source, or fewer bytes were packed than were allocated and sent *)
 Inductive sres := SOk (wire : bytes) | SErr (e : N) | SFault.
 
+(* m->pkt_len = n; m->type = type; (magic and version are the packer's locals) *)
+Definition stamp (m : msg) (code : N) (n : Z) : msg :=
+  setn (setn (setn (setn m Nmagic msg_magic) Nversion msg_version) Ntype code) Npkt_len (Z.to_N n).
+
 Definition send (hp : Z -> bool) (code : N) (m : msg) (maxlen : Z) : sres :=
   match type_of_code code with
   | None => SErr e_snafu                                   (* _msg_length: default => -1 *)
@@ -223,9 +227,7 @@ Definition send (hp : Z -> bool) (code : N) (m : msg) (maxlen : Z) : sres :=
     if n <=? 0 then SErr e_snafu
     else if negb (hp n) then SErr e_no_memory              (* malloc (n) *)
     else
-      (* m->pkt_len = n; m->type = type; before the body is packed; magic / version are the packer's locals *)
-      let mh := setn (setn (setn (setn m Nmagic msg_magic) Nversion msg_version) Ntype code)
-                     Npkt_len (Z.to_N n) in
+      let mh := stamp m code n in       (* set before the body is packed *)
       match pack_list (pack_fields t) mh 0 n with
       | PErr => SErr e_snafu
       | PFault => SFault
@@ -388,6 +390,12 @@ Fixpoint merge_list (fs : list fdesc) (m acc : msg) : msg :=
                                            ++ skipn (N.to_nat (nv m lf)) (content acc b))))
   end.
 Definition restrict (t : mtype) (m acc : msg) : msg := merge_list (pack_fields t) m acc.
+
+(* what m_msg_recv leaves in acc after receiving the wire form of m (type t, body of n bytes) *)
+Definition recv_expect (t : mtype) (m acc : msg) (n : Z) : msg :=
+  let a1 := restrict T_HDR (stamp m (code_of t) n) acc in
+  let a3 := restrict t m (setb a1 Bpkt (Some [])) in
+  setn (setb a3 Bpkt None) Npkt_len 0%N.
 
 (* does the list carry the member? *)
 Definition carries_n (fs : list fdesc) (f : nfld) : bool :=
